@@ -29,3 +29,65 @@ Example C06_ac3_example :
    | None => []
    end) = [[(65534, 258, 0, true); (65535, 130, 3072, true)]; [(0, 130, 0, true)]].
 Proof. vm_compute. reflexivity. Qed.
+
+(* ---- the translated kernels (tools/go2coq, regenerated from the Go source on every run) ----
+   The integer formulas of rtpac3/encoder.go - lenAggregated (n := 2 + len(addFrame); n += len(frame), as a loop over the
+   translated statements), the aggregation test lenAggregated(batch, frame) <= PayloadMaxSize, the writeBatch dispatch
+   len(frames) != 1 || lenAggregated(frames, nil) < PayloadMaxSize, the fragment budget PayloadMaxSize - 4, the fragment
+   count packetCount(avail, len(frame)), the frame-type test avail >= len(frame)*5/8 with the constants 1 / 2 / 3, the
+   size 2+le of a fragment packet, uint8(packetCount) / uint8(len(frames)), the last-fragment test and the marker
+   expression, the two e.sequenceNumber++, timestamp += uint32(len(batch)) * ac3.SamplesPerFrame - ARE the formulas of
+   Model.len_agg / batch_loop / write_batch / write_frag / frag_pkts / write_agg / enc_batches. *)
+From Coq Require Import ZArith.
+From GVL Require Import Chunks.
+From GVG Require Import Kern.
+From GV_ac3 Require Import BridgeLib Bridge.
+Open Scope Z_scope.
+
+Theorem C06_ac3_kernels_are_the_code :
+  forall (max : N) (batch : list bytes) (f p : bytes) (i pc s ts ft : N),
+  (5 <= max)%N -> Z.of_N max < i64max -> Z.of_N (len_agg batch (Some f)) < i64max ->
+  Z.of_N (nlen f) * 5 < i64max -> Z.of_N (nlen p) + 2 < i64max -> (1 <= pc)%N -> Z.of_N pc < i64max ->
+  la_code batch None = Z.of_N (len_agg batch None) /\
+  k_ac3_agg_fits (la_code batch (Some f)) (Z.of_N max) = (len_agg batch (Some f) <=? max)%N /\
+  k_ac3_batch_agg (Z.of_N (nlen batch)) (la_code batch None) (Z.of_N max)
+    = (negb (nlen batch =? 1)%N || (len_agg batch None <? max)%N) /\
+  k_ac3_fr_avail (Z.of_N max) = Z.of_N (max - 4) /\
+  k_ac3_packetCount (k_ac3_fr_avail (Z.of_N max)) (Z.of_N (nlen f)) = Some (Z.of_N (nlen (chunks (max - 4) f))) /\
+  (if k_ac3_fr_ftcond (k_ac3_fr_avail (Z.of_N max)) (Z.of_N (nlen f)) then k_ac3_fr_ft1 else k_ac3_fr_ft2)
+    = Z.of_N (if (nlen f * 5 / 8 <=? max - 4)%N then 1 else 2) /\ k_ac3_fr_ft3 = 3 /\
+  k_ac3_fr_size (Z.of_N (nlen p)) = Z.of_N (nlen ([ft; pc mod 256]%N ++ p)) /\
+  k_ac3_fr_count (Z.of_N pc) = Z.of_N (pc mod 256) /\ k_ac3_wa_count (Z.of_N pc) = Z.of_N (pc mod 256) /\
+  k_ac3_fr_last (Z.of_N i) (Z.of_N pc) = (i + 1 =? pc)%N /\ k_ac3_fr_marker (Z.of_N i) (Z.of_N pc) = (i + 1 =? pc)%N /\
+  k_ac3_seq_frag (Z.of_N s) = Z.of_N (seq_next s) /\ k_ac3_seq_agg (Z.of_N s) = Z.of_N (seq_next s) /\
+  k_ac3_ts_step (Z.of_N ts) (Z.of_N (nlen batch)) (Z.of_N spf) = Z.of_N ((ts + nlen batch * spf) mod 4294967296).
+Proof. exact enc_kernels_are_the_code. Qed.
+Print Assumptions C06_ac3_kernels_are_the_code.
+
+(* the dispatch of Model.write_batch is that boolean; Model.frag_pkts puts the marker where the kernel says *)
+Theorem C06_ac3_write_batch_dispatch : forall max batch ts seq,
+  write_batch max batch ts seq =
+  if negb (nlen batch =? 1)%N || (len_agg batch None <? max)%N then Some (write_agg batch ts seq)
+  else match batch with f :: _ => write_frag max f ts seq | [] => None end.
+Proof. exact write_batch_dispatch. Qed.
+Print Assumptions C06_ac3_write_batch_dispatch.
+
+Theorem C06_ac3_marker_position : forall ts pc (cs : list bytes) seq ft i, (i < length cs)%nat ->
+  nth i (map pmarker (frag_pkts seq ts ft pc cs)) false = (N.of_nat i + 1 =? nlen cs)%N.
+Proof. exact frag_pkts_marker. Qed.
+Print Assumptions C06_ac3_marker_position.
+
+(* the translated kernels compute, on the boundaries: a 1450-byte limit leaves 1446 bytes per fragment; an aggregate of
+   exactly 1450 bytes fits, 1451 does not; one frame whose aggregate is 1450 bytes is fragmented, 1449 is sent alone, two
+   frames are always aggregated; frame type 1 iff 5/8 of the frame fit (2313*5/8 = 1445 <= 1446, 2316*5/8 = 1447 > 1446);
+   uint8(256) = 0; 65535++ = 0; the timestamp wraps in uint32; lenAggregated([3 bytes], 1 byte) = 2 + 3 + 1 *)
+Example C06_ac3_example_kernels :
+  k_ac3_fr_avail 1450 = 1446 /\ k_ac3_agg_fits 1450 1450 = true /\ k_ac3_agg_fits 1451 1450 = false /\
+  k_ac3_batch_agg 1 1450 1450 = false /\ k_ac3_batch_agg 1 1449 1450 = true /\ k_ac3_batch_agg 2 1450 1450 = true /\
+  k_ac3_fr_ftcond 1446 2315 = true /\ k_ac3_fr_ftcond 1446 2316 = false /\
+  k_ac3_fr_size 1446 = 1448 /\ k_ac3_fr_count 256 = 0 /\ k_ac3_seq_frag 65535 = 0 /\
+  k_ac3_fr_marker 2 3 = true /\ k_ac3_fr_marker 1 3 = false /\
+  k_ac3_ts_step 4294967295 2 1536 = 3071 /\
+  la_code [[1; 2; 3]%N] (Some [4%N]) = 6 /\
+  k_ac3_packetCount (k_ac3_fr_avail 1450) 2893 = Some 3 /\ k_ac3_packetCount (k_ac3_fr_avail 1450) 2892 = Some 2.
+Proof. vm_compute. repeat split. Qed.
